@@ -492,7 +492,40 @@ def run_float_d2c(rep):
                        'model': model})
 
 
+    probe_wide_extent(rep)
+
+
+KNOWN_WIDE_EXTENT = 'upper-edge-not-last-cell:extent-wider-than-DBL_MAX'
+
+
+def probe_wide_extent(rep):
+    """Deterministic corpus case for the recorded finding C08_f_data2coord_above_overflow_refuted
+    (coq/Proofs/FloatData2CoordMono.v): when hi - lo overflows to +inf (an extent wider than the
+    largest double) the factor n / (hi - lo) is 0 and EVERY centre lands in cell 0, also one on the
+    upper edge, which the property puts in the last cell.  The float model agrees with the code bit
+    for bit (so the correspondence sees nothing); the expectation here is the PROPERTY's."""
+    from spatialpandas.geometry import PointArray
+    big = 1.7e308
+    p = 3
+    arr = PointArray([[big, 0.5], [-big, 0.5], [0.0, 0.5]])
+    got = [int(d) for d in arr.hilbert_distance((-big, 0.0, big, 1.0), p=p)]
+    import spatialpandas.spatialindex.hilbert_curve as hc
+    n = 2 ** p
+    want_first = int(hc.distance_from_coordinate(p, np.array([n - 1, n // 2], dtype=np.int64)))
+    rep.evaluations += 1
+    rep.count('corpus:wide-extent')
+    if got[0] != want_first:
+        rep.violation(KNOWN_WIDE_EXTENT,
+                      'a centre on the upper edge of a total_bounds extent wider than the largest double '
+                      f'is put in cell 0, not in the last cell: hilbert_distance(({-big}, 0, {big}, 1), p={p}) '
+                      f'of the points x = {big}, {-big}, 0 gives {got} (all equal)',
+                      {'float_d2c_wide_extent': True, 'got': got, 'expected_first': want_first, 'p': p})
+
 def replay(rep, rp):
+    if rp.get('float_d2c_wide_extent'):
+        n0 = len(rep.violations)
+        probe_wide_extent(rep)
+        return len(rep.violations) == n0
     def un(e):
         if isinstance(e, list):
             return [un(x) for x in e]
